@@ -260,6 +260,9 @@ def run(ctx):
     ctx.exhaustive("lattice-grid", lattice_grid(), body,
                    "all 49x49 lattice segments x {2x2 box, vertical, horizontal, point rectangle}")
     ctx.given("generated", cases(), body, quick=8000, thorough=1200000)
+    if ctx.thorough and ctx.shard == 0:
+        from pbt.fuzz import driver
+        driver.run_stage(ctx, "c08_clip", runs=100000, max_len=4096)
 
 
 def replay(ctx, part, case):
